@@ -281,6 +281,13 @@ def inplace_margin(n):
     return (n >> 8) + _IPM[0]
 
 # ---------------------------------------------------------------- model side, one-shot
+def model_fast(orc2, api, blk, dsize, hist, salt):
+    """Model/DecFast.v (oracle dec2): LZ4_decompress_fast / _fast_usingDict on a valid block; returns (ret, ok, md5(image[0,dsize)))"""
+    pl, d = ("p", hist) if api == "fast_p" else (("x", hist) if api == "fast_x" else ("x", b""))
+    a = orc2.ask("fastapi", hx(blk), str(len(blk)), str(dsize), pl, hx(d), hx(fill(dsize, salt)))
+    t = a.split()
+    return int(t[0]), t[1], t[3]
+
 def model1(orc, fast, api, blk, srcsize, cap, target, hist, salt, extra_src=b""):
     part = api in ("partial", "pdict_p", "pdict_x")
     if api in ("safe", "partial"):
@@ -544,6 +551,11 @@ def run_stream(lib, orc2, fast, geom, blocks, maxblock, rng, salt, use_fast_api=
         rec = {"ret": r, "img": img, "cap": cap, "state": state, "dest": bs + pos, "model": None}
         if want_model and not use_fast_api:
             a = orc2.ask("cont", "1" if fast else "0", hx(b["blk"]), str(len(b["blk"])), str(bs + pos), str(cap))
+            t = a.split()
+            rec["model"] = (int(t[0]), t[1], tuple(int(x) for x in t[2:6]), t[7])
+        elif want_model and use_fast_api:
+            # Model/DecFast.v: LZ4_decompress_fast_continue (srcSize = real size of the source buffer, for the access flag only)
+            a = orc2.ask("fcont", hx(b["blk"]), str(len(b["blk"])), str(bs + pos), str(n))
             t = a.split()
             rec["model"] = (int(t[0]), t[1], tuple(int(x) for x in t[2:6]), t[7])
         recs.append(rec)
